@@ -70,6 +70,15 @@ pub fn check(trace: &[TraceEv], nthreads: usize) -> HbReport {
                 }
                 continue;
             }
+            Kind::MutexTryLock | Kind::RwTryRead | Kind::RwTryWrite => {
+                if ev.outcome.as_ref().map_or(false, |o| o.ok) {
+                    if let Some(l) = lockclk.get(&e.addr) {
+                        let l = l.clone();
+                        join(&mut clocks[t], &l);
+                    }
+                }
+                continue;
+            }
             Kind::MutexUnlock | Kind::RwWriteUnlock | Kind::RwReadUnlock => {
                 let c = clocks[t].clone();
                 join(lockclk.entry(e.addr).or_insert_with(|| vec![0; nthreads]), &c);
@@ -95,7 +104,7 @@ pub fn check(trace: &[TraceEv], nthreads: usize) -> HbReport {
                     relclk.remove(&e.addr);
                 }
             }
-            Kind::Swap | Kind::FetchAdd | Kind::FetchSub => {
+            Kind::Swap | Kind::FetchAdd | Kind::FetchSub | Kind::FetchRmw => {
                 if acq(e.success) {
                     if let Some(r) = relclk.get(&e.addr) {
                         let r = r.clone();
@@ -108,7 +117,7 @@ pub fn check(trace: &[TraceEv], nthreads: usize) -> HbReport {
                 }
                 // a non-release RMW leaves the release sequence intact
             }
-            Kind::CasWeak => {
+            Kind::CasWeak | Kind::Cas => {
                 if o.ok {
                     if acq(e.success) {
                         if let Some(r) = relclk.get(&e.addr) {
